@@ -5,7 +5,10 @@ In every function generic over the cursor direction (`Dir: Direction`), a *stepp
 try_move_right, `pos += n` / `pos -= n` on a position) must be selected by a branch on
 `<Dir as Direction>::FORWARD`, and the two arms of that branch must use mirror-image primitives
 (left <-> right, += <-> -=). A step that ignores the direction, or an arm whose twin steps the same
-way, walks the wrong way inside a lookbehind (out of bounds in the unchecked build).
+way, walks the wrong way inside a lookbehind (out of bounds in the unchecked build). UNITSTEP: try_move_left /
+try_move_right count code units; outside indexing.rs they only turn the caller's offset into a position (initial_position) —
+the executors step over characters with next_*_pos / next_* — and inside indexing.rs only the one-unit-per-character indexers
+(AsciiInput, Ucs2Input) pass them a constant amount.
 
 DIRSTATE — the emitter's and the IR walkers' `in_lookbehind` flag follows a save/set/restore discipline:
 every store to a field named in_lookbehind writes either the `backwards` field of the
@@ -105,6 +108,36 @@ def check(facts):
                            "direction-generic function steps with %s unconditionally (line %s): the step ignores whether the cursor "
                            "moves forwards or backwards" % (c, line), facts.loc(fn, line))
     r.floor("direction_switches", nsw, 10)
+    # UNITSTEP: try_move_left / try_move_right move by code *units*. Outside indexing.rs they are only used to turn the caller's
+    # offset into a position (initial_position); the executors step over text with the character-aware next_*_pos / next_*.
+    # Inside indexing.rs a constant amount is passed only by the single-unit-per-character indexers (AsciiInput, Ucs2Input).
+    nmove = 0
+    for fn in sorted(facts.body_names()):
+        if "::tests::" in fn:
+            continue
+        b = facts.body(fn)
+        for bb, t in b.iter_calls():
+            last = (t.get("callee") or "").split("::")[-1]
+            if last not in ("try_move_left", "try_move_right"):
+                continue
+            nmove += 1
+            base = fn.split("::{closure")[0]
+            in_indexing = base.startswith("indexing::") or base.startswith("<indexing::")
+            amt = t["args"][2] if len(t["args"]) > 2 else None
+            const_amt = b.const_of_operand(amt) if amt is not None else None
+            key = "%s %s by units" % (base, last)
+            if not in_indexing:
+                if base.endswith("::initial_position"):
+                    r.ok(key, "offset to position")
+                else:
+                    r.fail(key, "%s steps a position with %s (line %s), which counts code units: a character step in the executors must use "
+                                "next_left_pos / next_right_pos — one byte back from behind a multi-byte character lands inside it" % (
+                                    base.split("::")[-1], last, t.get("line")), facts.loc(fn, t.get("line")))
+            elif const_amt is not None and not any(x in base for x in ("AsciiInput", "Ucs2Input")):
+                r.fail(key, "a multi-unit indexer moves by the constant %s units (line %s)" % (const_amt, t.get("line")), facts.loc(fn, t.get("line")))
+            else:
+                r.ok(key)
+    r.floor("unit_moves", nmove, 8)
     return r
 
 
